@@ -81,6 +81,10 @@ def run(chk):
         slab_rules(chk, cr)
     if chk.want("R03.5"):
         exclusion_rules(chk, cr, evs)
+    chk.rule("R03.6", "memo discipline of class Crystal (= C14 R14.2): every state-changing method drops every memoised quantity, including any newly introduced cache", 2)
+    if chk.want("R03.6"):
+        from .c14 import crystal_memo_rule
+        crystal_memo_rule(chk, "R03.6")
     chk.assume("KD-tree ball queries, tolerance edge cases and tightness of ceil are not decided")
     chk.assume("a Cartesian ball of radius r spans |delta frac_i| <= r * |column i of the inverse matrix| (exact geometry)")
 
